@@ -177,3 +177,85 @@ func Harness_C08_SidetreeClient() {
 	verifrt.Assert(st.Deactivated && st.UpdateCommitment == "" && st.RecoveryCommitment == "", "deactivate through the Sidetree client deactivates the DID")
 	verifrt.Reach("deactivated")
 }
+
+// Harness_C08_SidetreeClientUpdateOptions: every subset of the six patch options of UpdateDID (add / remove
+// also-known-as, keys, services) on a DID created with one key, one service and one URI: the request the client builds is
+// accepted, and applying it gives exactly what each option asked for - no option is lost because another one is present.
+func Harness_C08_SidetreeClientUpdateOptions() {
+	code := uint(gen.SHA256)
+	p := gen.Protocol("p", false)
+	parser := operationparser.New(p)
+	e := &c08Client{parser: parser, applier: operationapplier.New(p, parser, doccomposer.New()), ns: "did:" + verifrt.AnyAtom("method")}
+	e.c = New(WithSidetreeOperationRequestFnc(func(req []byte, _ GetEndpointsFunc) ([]byte, error) {
+		e.last = req
+		return nil, errors.New("captured")
+	}))
+	upd1, rec1, upd2 := gen.NewSigner("upd1"), gen.NewSigner("rec1"), gen.NewSigner("upd2")
+	verifrt.Assume(upd1.JWK.X != rec1.JWK.X && upd1.JWK.X != upd2.JWK.X && upd2.JWK.X != rec1.JWK.X)
+	key1 := &doc.PublicKey{ID: "key1", Type: doc.Ed25519VerificationKey2018, Purposes: []string{doc.KeyPurposeAuthentication}, B58Key: "b58" + verifrt.AnyAtom("k1")}
+	key2 := &doc.PublicKey{ID: "key2", Type: doc.Ed25519VerificationKey2018, Purposes: []string{doc.KeyPurposeAssertionMethod}, B58Key: "b58" + verifrt.AnyAtom("k2")}
+	aka1, aka2 := "https://aka.example/"+verifrt.AnyAtom("aka1"), "https://aka.example/"+verifrt.AnyAtom("aka2")
+	verifrt.Assume(aka1 != aka2)
+	svcURI := "https://svc.example/" + verifrt.AnyAtom("svc-uri")
+	svc1 := &docdid.Service{ID: "svc1", Type: "DIDCommMessaging", ServiceEndpoint: endpoint.NewDIDCommV1Endpoint(svcURI)}
+	svc2 := &docdid.Service{ID: "svc2", Type: "DIDCommMessaging", ServiceEndpoint: endpoint.NewDIDCommV1Endpoint(svcURI)}
+	_, _ = e.c.CreateDID(create.WithRecoveryPublicKey(&rec1.Priv.PublicKey), create.WithUpdatePublicKey(&upd1.Priv.PublicKey),
+		create.WithPublicKey(key1), create.WithAlsoKnownAs(aka1), create.WithMultiHashAlgorithm(code), create.WithService(svc1))
+	if e.last == nil {
+		verifrt.Fail("the Sidetree client built no create request")
+		return
+	}
+	cop, cerr := parser.Parse(e.ns, e.last)
+	if cerr != nil {
+		verifrt.Fail("the create request produced by the Sidetree client is rejected by the parser")
+		return
+	}
+	did := e.ns + ":" + cop.UniqueSuffix
+	st := e.step(&protocol.ResolutionModel{}, operation.TypeCreate, 100, "create")
+
+	addAka, rmAka := verifrt.Choose("add-aka", 2) == 1, verifrt.Choose("remove-aka", 2) == 1
+	addKey, rmKey := verifrt.Choose("add-key", 2) == 1, verifrt.Choose("remove-key", 2) == 1
+	addSvc, rmSvc := verifrt.Choose("add-service", 2) == 1, verifrt.Choose("remove-service", 2) == 1
+	verifrt.Assume(addAka || rmAka || addKey || rmKey || addSvc || rmSvc)
+	opts := []update.Option{update.WithSigner(c08Signer{upd1}), update.WithNextUpdatePublicKey(&upd2.Priv.PublicKey),
+		update.WithOperationCommitment(st.UpdateCommitment), update.WithMultiHashAlgorithm(code)}
+	if addAka {
+		opts = append(opts, update.WithAddAlsoKnownAs(aka2))
+	}
+	if rmAka {
+		opts = append(opts, update.WithRemoveAlsoKnownAs(aka1))
+	}
+	if addKey {
+		opts = append(opts, update.WithAddPublicKey(key2))
+	}
+	if rmKey {
+		opts = append(opts, update.WithRemovePublicKey("key1"))
+	}
+	if addSvc {
+		opts = append(opts, update.WithAddService(svc2))
+	}
+	if rmSvc {
+		opts = append(opts, update.WithRemoveService("svc1"))
+	}
+	e.last = nil
+	_ = e.c.UpdateDID(did, opts...)
+	st = e.step(st, operation.TypeUpdate, 200, "update")
+	verifrt.Reach("updated")
+	var wantAka []interface{}
+	if !rmAka {
+		wantAka = append(wantAka, aka1)
+	}
+	if addAka {
+		wantAka = append(wantAka, aka2)
+	}
+	aka := c08Aka(st.Doc)
+	okAka := len(aka) == len(wantAka)
+	for i := 0; okAka && i < len(aka); i++ {
+		okAka = aka[i] == wantAka[i]
+	}
+	verifrt.Assert(okAka, "the also-known-as URIs after the update are the created ones minus those removed plus those added")
+	verifrt.Assert(c08HasKey(st.Doc, "key1") == !rmKey && c08HasKey(st.Doc, "key2") == addKey, "the keys after the update are the created ones minus those removed plus those added")
+	verifrt.Assert(c08Service(st.Doc, "svc1", "DIDCommMessaging", svcURI, nil, nil) == !rmSvc && c08Service(st.Doc, "svc2", "DIDCommMessaging", svcURI, nil, nil) == addSvc,
+		"the services after the update are the created ones minus those removed plus those added")
+	verifrt.Assert(st.UpdateCommitment == gen.Commitment(upd2.JWK, code), "the update advances the update commitment")
+}
